@@ -92,7 +92,7 @@ def run_repo_tests(prop: str) -> Dict[str, Any]:
             "other_kinds": kinds, "violations": viol, "pytest_rc": rc}
 
 
-def run_family(prop: str, fam: str, tier: str, seed: int, num: int, depth: int, nprof: int, scen=None) -> Dict[str, Any]:
+def run_family(prop: str, fam: str, tier: str, seed: int, num: int, depth: int, nprof: int, scen=None, timing: bool = True) -> Dict[str, Any]:
     if scen == "repo-tests":
         return run_repo_tests(prop)
     if scen is not None:
@@ -115,8 +115,10 @@ def run_family(prop: str, fam: str, tier: str, seed: int, num: int, depth: int, 
     if nprof >= 2:
         # at least one concretisation runs with the manager's own logging switched on (its default in production)
         profiles[-1] = Profile(seed * 7 + nprof - 1, log_level=20 if seed % 2 == 0 else 10)
+    for pr in profiles:
+        pr.timing = timing          # send_msg_timing option of the manager
     runs = engine.replay_all(behs, profiles)
-    verdicts = engine.run_and_validate([{"tid": r["tid"], "ev": r["ev"]} for r in runs])
+    verdicts = engine.run_and_validate([{"tid": r["tid"], "ev": r["ev"]} for r in runs], cfg="Manager_Trace.cfg" if timing else "Manager_Trace_notiming.cfg")
     violations = []
     other = 0
     other_kinds: Dict[str, int] = {}
@@ -165,7 +167,7 @@ def run(prop: str, tier: str, seed: int) -> Dict[str, Any]:
         q = tier == "quick"
         res = run_family(prop, item["fam"], tier, seed, num=item["num_q"] if q else item["num_t"],
                          depth=item.get("depth", 80), nprof=item.get("prof_q", 2) if q else item.get("prof_t", 4),
-                         scen=item.get("scen"))
+                         scen=item.get("scen"), timing=item.get("timing", True))
         states += res["mc"].get("distinct", 0)
         trans += res["mc"].get("states", 0)
         ntr += len(res["runs"])
@@ -210,9 +212,10 @@ def run(prop: str, tier: str, seed: int) -> Dict[str, Any]:
 def replay(prop: str, path: str) -> Dict[str, Any]:
     rp = json.load(open(path))
     prof = Profile(rp["profile"]["seed"], log_level=rp["profile"].get("log_level"))
+    prof.timing = rp["profile"].get("timing", True)
     with engine.Quiet():
         h = replay_beh(rp["behaviour"], prof)
-    v = engine.run_and_validate([{"tid": 1, "ev": h.events}])[1]
+    v = engine.run_and_validate([{"tid": 1, "ev": h.events}], cfg="Manager_Trace.cfg" if prof.timing else "Manager_Trace_notiming.cfg")[1]
     viol = []
     if v["res"] != "ok" and any(p.startswith(prop) for p in v.get("props", [])):
         viol.append({"signature": sig_of(prop, {"ev": h.events, "crashed": h.crashed}, v),
